@@ -296,6 +296,8 @@ class FakeProcess(object):
         if not self.alive_quiet():
             return
         self.exitcode = -9
+        if self.task is not None and isinstance(self.task.blocked_on, tuple) and self.task.blocked_on[0] in ('queue', 'rlock'):
+            sim.run.probe('killed_inside_queue_get')      # the reader lock of that queue stays held for ever
         for q in self.mp.queues_made:
             q.producer_killed(self)
         sim.run.ev('sigkill', self.pid)
